@@ -153,19 +153,19 @@ __CPROVER_assigns(self->nbItemsInBlocks, self->offsetOfBlocksForPtrs, __CPROVER_
 /* ===================================================================================== */
 #ifdef SPEC_PART_HARNESS
 /*@ harness h_ld_item enforce=TbfUtils__GetLeadingDim__VerifItem props=C14,C15 */
-void h_ld_item(void) { long n, a; TbfUtils__GetLeadingDim__VerifItem(n, a); }
+void h_ld_item(void) { long n, a; TbfUtils__GetLeadingDim__VerifItem(n, a);  CANARY(); }
 /*@ harness h_ld_hdr enforce=TbfUtils__GetLeadingDim__VerifHdr props=C14,C15 */
-void h_ld_hdr(void) { long n, a; TbfUtils__GetLeadingDim__VerifHdr(n, a); }
+void h_ld_hdr(void) { long n, a; TbfUtils__GetLeadingDim__VerifHdr(n, a);  CANARY(); }
 /*@ harness h_ld_double enforce=TbfUtils__GetLeadingDim__double props=C14,C15 */
-void h_ld_double(void) { long n, a; TbfUtils__GetLeadingDim__double(n, a); }
+void h_ld_double(void) { long n, a; TbfUtils__GetLeadingDim__double(n, a);  CANARY(); }
 /*@ harness h_ld_long enforce=TbfUtils__GetLeadingDim__long props=C14,C15 */
-void h_ld_long(void) { long n, a; TbfUtils__GetLeadingDim__long(n, a); }
+void h_ld_long(void) { long n, a; TbfUtils__GetLeadingDim__long(n, a);  CANARY(); }
 
 #define LDS TbfUtils__GetLeadingDim__VerifItem,TbfUtils__GetLeadingDim__VerifHdr,TbfUtils__GetLeadingDim__double,TbfUtils__GetLeadingDim__long
 /*@ harness h_layout_cells enforce=BCells__GetSizeAndOffsetOfBlocks__std_array_long_2 replace=TbfUtils__GetLeadingDim__VerifItem,TbfUtils__GetLeadingDim__VerifHdr unwind=4 props=C14,C15 */
-void h_layout_cells(void) { struct std_array_long_2 s; BCells__GetSizeAndOffsetOfBlocks__std_array_long_2(&s); }
+void h_layout_cells(void) { struct std_array_long_2 s; BCells__GetSizeAndOffsetOfBlocks__std_array_long_2(&s);  CANARY(); }
 /*@ harness h_layout_parts enforce=BParts__GetSizeAndOffsetOfBlocks__std_array_long_4 replace=TbfUtils__GetLeadingDim__VerifItem,TbfUtils__GetLeadingDim__VerifHdr,TbfUtils__GetLeadingDim__double,TbfUtils__GetLeadingDim__long unwind=6 props=C14,C15 */
-void h_layout_parts(void) { struct std_array_long_4 s; BParts__GetSizeAndOffsetOfBlocks__std_array_long_4(&s); }
+void h_layout_parts(void) { struct std_array_long_4 s; BParts__GetSizeAndOffsetOfBlocks__std_array_long_4(&s);  CANARY(); }
 
 static inline void mk_block_state_cells(struct BCells *b)
 {
@@ -181,6 +181,7 @@ void h_reset_cells(void)
   struct BCells b; struct std_array_long_2 s;
   mk_block_state_cells(&b);
   BCells__resetBlocksFromSizes__std_array_long_2(&b, &s);
+  CANARY();
 }
 /*@ harness h_reset_parts enforce=BParts__resetBlocksFromSizes__std_array_long_4 replace=BParts__GetSizeAndOffsetOfBlocks__std_array_long_4,__verif_memset,BParts__constructAllItems,BParts__freeAllItems unwind=6 props=C14,C15,C06 */
 void h_reset_parts(void)
@@ -192,6 +193,7 @@ void h_reset_parts(void)
     b.rawMemoryPtr = malloc(a);
   }
   BParts__resetBlocksFromSizes__std_array_long_4(&b, &s);
+  CANARY();
 }
 
 /*@ harness h_inithdr_parts enforce=BParts__initHeader unwind=6 props=C14,C15 */
@@ -202,6 +204,7 @@ void h_inithdr_parts(void)
   b.allocatedMemorySizeInByte = a;
   b.rawMemoryPtr = malloc(a);
   BParts__initHeader(&b);
+  CANARY();
 }
 /*@ harness h_inithdr_cells enforce=BCells__initHeader unwind=4 props=C14,C15 */
 void h_inithdr_cells(void)
@@ -211,6 +214,7 @@ void h_inithdr_cells(void)
   b.allocatedMemorySizeInByte = a;
   b.rawMemoryPtr = malloc(a);
   BCells__initHeader(&b);
+  CANARY();
 }
 
 /* accessors: viewer construction and element address (real bodies), then a pure-integer lemma that the
@@ -221,6 +225,7 @@ void h_viewer3(void)
   struct BParts b; long nb[4];
   b.nbItemsInBlocks = nb;
   BParts__getViewerForBlock__3(&b);
+  CANARY();
 }
 /*@ harness h_viewer2 enforce=BParts__getViewerForBlock__2 props=C14,C15 */
 void h_viewer2(void)
@@ -228,18 +233,21 @@ void h_viewer2(void)
   struct BParts b; long nb[4];
   b.nbItemsInBlocks = nb;
   BParts__getViewerForBlock__2(&b);
+  CANARY();
 }
 /*@ harness h_getitem_rows enforce=TbfMemoryMultiRVector_double_4_64__Viewer__getItem props=C14,C15 */
 void h_getitem_rows(void)
 {
   struct TbfMemoryMultiRVector_double_4_64__Viewer v; long i, r;
   TbfMemoryMultiRVector_double_4_64__Viewer__getItem(&v, i, r);
+  CANARY();
 }
 /*@ harness h_getitem_longs enforce=TbfMemoryVector_long_64__Viewer__getItem props=C14,C15 */
 void h_getitem_longs(void)
 {
   struct TbfMemoryVector_long_64__Viewer v; long i;
   TbfMemoryVector_long_64__Viewer__getItem(&v, i);
+  CANARY();
 }
 /*@ harness lemma_layout_bounds unwind=8 props=C14 */
 void lemma_layout_bounds(void)
@@ -264,5 +272,6 @@ void lemma_layout_bounds(void)
   __CPROVER_assert(off1 <= o1 && o1 + ITEMSIZE <= off2, "C14: item accessor stays inside its block");
   __CPROVER_assert(32 <= off1, "C14: the scalar header fits before the first vector block");
   /* allocated >= end + 64 (contract of reset): every data byte is below the trailer words */
+  CANARY();
 }
 #endif
